@@ -32,6 +32,8 @@ pub struct Outcome {
     pub client_addrs: Vec<SocketAddr>,
     /// (time, client, new address) of every NAT rebinding
     pub rebinds: Vec<(u64, usize, SocketAddr)>,
+    /// what the evil endpoint injected (C04)
+    pub injection: Option<crate::evil::InjectionInfo>,
 }
 
 impl Outcome {
@@ -206,15 +208,15 @@ pub struct Extras {
     pub no_payload_check: bool,
 }
 
-fn start_server(handle: &Handle, cfg: &EndpointCfg, seed: u64, rec: Recorder, resets: bool) -> Server {
+fn start_server(handle: &Handle, cfg: &EndpointCfg, seed: u64, rec: Recorder, resets: bool, evil: Option<crate::evil::Evil>) -> Server {
     if resets {
-        start_server_with::<true>(handle, cfg, seed, rec)
+        start_server_with::<true>(handle, cfg, seed, rec, evil)
     } else {
-        start_server_with::<false>(handle, cfg, seed, rec)
+        start_server_with::<false>(handle, cfg, seed, rec, evil)
     }
 }
 
-fn start_server_with<const R: bool>(handle: &Handle, cfg: &EndpointCfg, seed: u64, rec: Recorder) -> Server {
+fn start_server_with<const R: bool>(handle: &Handle, cfg: &EndpointCfg, seed: u64, rec: Recorder, evil: Option<crate::evil::Evil>) -> Server {
     let b = Server::builder()
         .with_stateless_reset_token(TokenGen::<R>(seed ^ 0x70c))
         .unwrap()
@@ -228,7 +230,7 @@ fn start_server_with<const R: bool>(handle: &Handle, cfg: &EndpointCfg, seed: u6
         .unwrap()
         .with_connection_id(CidFormat::new(seed, if cfg.cid.len == 0 { 16 } else { cfg.cid.len.clamp(4, 20) as usize }, cfg.cid.lifetime_s.map(|s| Duration::from_secs(s.max(60) as u64)), cfg.cid.rotate_handshake))
         .unwrap()
-        .with_packet_interceptor(rec)
+        .with_packet_interceptor((evil, rec))
         .unwrap()
         .with_limits(limits_of(&cfg.limits))
         .unwrap();
@@ -238,15 +240,15 @@ fn start_server_with<const R: bool>(handle: &Handle, cfg: &EndpointCfg, seed: u6
     }
 }
 
-fn start_client(handle: &Handle, cfg: &EndpointCfg, seed: u64, rec: Recorder, resets: bool) -> Client {
+fn start_client(handle: &Handle, cfg: &EndpointCfg, seed: u64, rec: Recorder, resets: bool, evil: Option<crate::evil::Evil>) -> Client {
     if resets {
-        start_client_with::<true>(handle, cfg, seed, rec)
+        start_client_with::<true>(handle, cfg, seed, rec, evil)
     } else {
-        start_client_with::<false>(handle, cfg, seed, rec)
+        start_client_with::<false>(handle, cfg, seed, rec, evil)
     }
 }
 
-fn start_client_with<const R: bool>(handle: &Handle, cfg: &EndpointCfg, seed: u64, rec: Recorder) -> Client {
+fn start_client_with<const R: bool>(handle: &Handle, cfg: &EndpointCfg, seed: u64, rec: Recorder, evil: Option<crate::evil::Evil>) -> Client {
     let b = Client::builder()
         .with_stateless_reset_token(TokenGen::<R>(seed ^ 0x70c))
         .unwrap()
@@ -260,7 +262,7 @@ fn start_client_with<const R: bool>(handle: &Handle, cfg: &EndpointCfg, seed: u6
         .unwrap()
         .with_connection_id(CidFormat::new(seed, if cfg.cid.len == 0 { 16 } else { cfg.cid.len.clamp(4, 20) as usize }, cfg.cid.lifetime_s.map(|s| Duration::from_secs(s.max(60) as u64)), cfg.cid.rotate_handshake))
         .unwrap()
-        .with_packet_interceptor(rec)
+        .with_packet_interceptor((evil, rec))
         .unwrap()
         .with_limits(limits_of(&cfg.limits))
         .unwrap();
@@ -378,11 +380,13 @@ pub fn run(sc: &Scenario) -> Outcome {
 
 pub fn run_with(sc: &Scenario, extras: Extras) -> Outcome {
     let (net, net_shared) = ScriptedNet::new(sc.net.clone());
-    let trace: Trace = Arc::new(Mutex::new(TraceState { no_payload_check: extras.no_payload_check, ..Default::default() }));
+    let trace: Trace = Arc::new(Mutex::new(TraceState { no_payload_check: extras.no_payload_check || sc.evil.is_some(), ..Default::default() }));
     let app = App::default();
     let capped = Arc::new(Mutex::new(false));
     let addrs: Arc<Mutex<(Option<SocketAddr>, Vec<SocketAddr>)>> = Default::default();
 
+    let evil_shared: crate::evil::EvilShared = Default::default();
+    let evil_out = evil_shared.clone();
     let sockets: Sockets = Default::default();
     SOCKETS.with(|s| *s.borrow_mut() = Some(sockets.clone()));
     let mut executor = Executor::new(net, sc.seed);
@@ -404,7 +408,7 @@ pub fn run_with(sc: &Scenario, extras: Extras) -> Outcome {
             app.borrow_mut().handles = vec![None; sc.clients.len()];
 
             // server first: its address is the first one generated
-            let mut server = start_server(&handle, &sc.server, sc.seed ^ 0x5e, Recorder { ep: 0, trace: trace.clone() }, sc.stateless_reset);
+            let mut server = start_server(&handle, &sc.server, sc.seed ^ 0x5e, Recorder { ep: 0, trace: trace.clone() }, sc.stateless_reset, sc.evil.filter(|e| !e.client).map(|e| crate::evil::Evil::new(e, 0, sc.clients[0].endpoint.clone(), trace.clone(), evil_shared.clone())));
             let server_addr = server.local_addr().unwrap();
             net_shared.lock().unwrap().server_addr = Some(server_addr);
             addrs.lock().unwrap().0 = Some(server_addr);
@@ -426,7 +430,7 @@ pub fn run_with(sc: &Scenario, extras: Extras) -> Outcome {
 
             let mut client_addrs = vec![];
             for (i, c) in sc.clients.iter().enumerate() {
-                let client = start_client(&handle, &c.endpoint, sc.seed ^ (0xc1 + i as u64), Recorder { ep: i + 1, trace: trace.clone() }, sc.stateless_reset);
+                let client = start_client(&handle, &c.endpoint, sc.seed ^ (0xc1 + i as u64), Recorder { ep: i + 1, trace: trace.clone() }, sc.stateless_reset, sc.evil.filter(|e| e.client && i == 0).map(|e| crate::evil::Evil::new(e, 1, sc.server.clone(), trace.clone(), evil_shared.clone())));
                 let local = client.local_addr().unwrap();
                 client_addrs.push(local);
                 trace.lock().unwrap().addr_client.insert(local, i);
@@ -597,7 +601,8 @@ pub fn run_with(sc: &Scenario, extras: Extras) -> Outcome {
         let a = addrs.lock().unwrap();
         (a.0.unwrap(), a.1.clone())
     };
-    let out = Outcome { recs, net, app, end_us, capped, server_addr, client_addrs, rebinds };
+    let injection = evil_out.lock().unwrap().done.clone();
+    let out = Outcome { recs, net, app, end_us, capped, server_addr, client_addrs, rebinds, injection };
     if std::env::var("VERIF_DUMP").is_ok() {
         dump(&out);
     }
